@@ -1,12 +1,24 @@
 //! verif-engine: checks that drive the real `warp_core::Engine`, scheduler,
 //! tick patches, state roots and footprint enforcement (C01 C02 C03 C04 C06 C14).
 
+mod c01;
 mod c03;
+mod c04;
+mod c06;
+mod c14;
+mod gen;
+mod model;
+mod prog;
+mod tick;
 
 fn main() {
     let args = verif_core::Args::parse();
     let code = match args.prop.as_str() {
+        "C01" => c01::run(&args),
         "C03" => c03::run(&args),
+        "C04" => c04::run(&args),
+        "C06" => c06::run(&args),
+        "C14" => c14::run(&args),
         other => {
             println!("HARNESS-ERROR unknown property {other}");
             2
